@@ -42,7 +42,7 @@ Definition gobs_eqb (a b : gobs) : bool :=
   | _, _ => false
   end.
 
-(* input of relation 2 = C07's input + the class names of the component schemas the document's operations use *)
+(* input of relation 2 = C07's input + the names of the component schemas the document's operations use *)
 Definition ginput := (input * list str)%type.
 Section Inst.
   Variable gc : ginput.
@@ -64,7 +64,7 @@ Section Inst.
 
   Definition group_guards : list bool :=
     let l := parse mn cl st doc in
-    [ true; true; true ]   (* bits 1-3 were F13a, F13b, F13c (all fixed) *).
+    [ guard_F13e (snd gc); true; true ]   (* bit 1 = F13e (names = raw component schema names); bits 2-3 unused *).
 End Inst.
 
 Definition run_groups (cases : list (ginput * gobs)) : list N :=
